@@ -283,11 +283,11 @@ BLOCK_ADAPTER_CALLERS_SORTED = {
 }
 
 
-def rule_E(ck, units):
+def rule_E(ck, units, floor=3):
     """adapter::block_matrix merges the b scalar rows of a block row by advancing one cursor per row up to the current block
     column: it needs row-sorted input.  Every place that applies it must hand it a sorted matrix."""
     ck.rule('E.block-adapter-sorted', 'adapter::block_matrix (a merge over the scalar rows of a block row) is applied only to row-sorted matrices: its argument is sorted by sort_rows earlier in the '
-                                      'same function, or is an internal shared CRS matrix of the hierarchy; a generic user matrix must not reach it unsorted', 3)
+                                      'same function, or is an internal shared CRS matrix of the hierarchy; a generic user matrix must not reach it unsorted', floor)
     done = set()
     for u in units.values():
         an = Analyzer([u])
